@@ -511,9 +511,20 @@ def run(cx, rep):
         dup_check = False
         for g in reach:
             f = F.fns[g]
-            if f.name in ("validate_type_uniqueness",):
-                # it compares RuntypeUUIDs (pre-mangling identity), not printed names: look for a call of the printer inside
-                dup_check = any((c.best or "").endswith("print_name_for_js_codegen") or (c.best or "").endswith("ts_identifier") for c in f.calls)
+            t = F.hir.get(g)
+            if t is None or not f.mir:
+                continue
+            # the printed name (result of the name printer) is inserted into a collection keyed by String, and an
+            # error is returned under the outcome of that insert
+            if not any((c.best or "").endswith(("print_name_for_js_codegen", "ts_identifier", "print_rt_name")) for c in f.calls):
+                continue
+            for i in walk(t["body"]):
+                if i["k"] != "If":
+                    continue
+                ins = [x for x in walk(i["cond"]) if x["k"] == "MethodCall" and x["method"] == "insert" and "<std::string::String" in (x.get("recv_ty") or "")]
+                errs = [r for r in walk(i["then"]) if r["k"] == "Ret" and any((y.get("callee") or "").endswith("::Err") for y in walk(r) if y["k"] == "Call")]
+                if ins and errs:
+                    dup_check = True
         rep.ob("C09.4", "mangled-name-collision-check", dup_check,
                "the printed name of a named type goes through a many-to-one mangling (non-identifier characters of the file path become `_`) and no check compares printed names before they are used as keys of namedRuntypes: two files `a-b.ts` / `a_b.ts` exporting the same type name collapse into one definition",
                mang[0].loc())
@@ -663,3 +674,56 @@ def import_type_scope_rule(cx, rep, rid):
                        "%s hands the qualifier of an import type to %s, which searches the generic-parameter stack: inside `type W<T>` the type `import(\"./m\").T` becomes W's argument instead of m's export T" % (g, hit),
                        "%s:%s" % (f.file, c["line"]), sample={"fn": g, "call": cal, "searcher": hit})
     rep.floor(rid, "functions that take an import type", n, 1)
+
+    # ---------------------------------------------------------------- C09.12
+    rep.rule("C09.12", "a declaration is recorded in one table of the module's local declarations")
+    one_table_rule(cx, rep, "C09.12")
+
+
+def one_table_rule(cx, rep, rid):
+    """The local declarations of a module are kept in one table per kind (type aliases, interfaces, enums, values by
+    annotation, values by initialiser).  The in-file lookup and the export-list binder consult these tables in
+    DIFFERENT orders, so a name recorded in two of them means one thing when used in its own file and another when it
+    is exported through `export { x }` - the split layout then compiles differently from the single file.  Decided on
+    every function that inserts into fields of the locals struct: no path through one execution of its body (one loop
+    iteration) performs inserts into two different tables."""
+    from mirflow import FnFlow
+    from rules.c04 import natural_loops
+    F = cx.rs
+    n = 0
+    for g in sorted(F.fns):
+        f = F.fns[g]
+        if not f.mir or f.crate == WASM or "/src/swc_tools/" not in (f.file or ""):
+            continue
+        flow = FnFlow(f)
+        sites = []
+        for c in f.calls:
+            if not (c.path or "").endswith("::insert") or not c.term["args"]:
+                continue
+            a0 = c.term["args"][0].get("place")
+            if a0 is None:
+                continue
+            tables = set()
+            for bi, d in flow.defs_of(a0["l"]):
+                rv = d.get("rv") or {}
+                pl = rv.get("place") or {}
+                for p_ in pl.get("p", []):
+                    m = re.match(r"^f:([\w:]*Locals)::(\w+)$", p_)
+                    if m:
+                        tables.add((m.group(1), m.group(2)))
+            for t in tables:
+                sites.append((c.bb, t, c))
+        if len({t for _, t, _ in sites}) < 2:
+            continue
+        n += 1
+        headers = set(natural_loops(flow).keys())
+        bad = None
+        for bb1, t1, c1 in sites:
+            reach = flow.reachable_from(bb1, stop=headers - {bb1})
+            for bb2, t2, c2 in sites:
+                if t2 != t1 and t2[0] == t1[0] and bb2 != bb1 and bb2 in reach:
+                    bad = (t1[1], t2[1], c2)
+        rep.ob(rid, "%s/one-table" % g.rsplit("::", 1)[-1], bad is None,
+               "%s can record one declaration in `%s` AND in `%s`: the two tables are consulted in different orders by the in-file lookup and by the export-list binder, so the name resolves differently depending on the module layout" % (g, bad[0] if bad else "", bad[1] if bad else ""),
+               "%s:%s" % (f.file, bad[2].line if bad else f.line), sample={"fn": g, "tables_written": sorted({t[1] for _, t, _ in sites})})
+    rep.floor(rid, "functions that write several tables of the local declarations", n, 1)
